@@ -139,4 +139,9 @@ def families(tier):
                 params={"kind": kind, "pattern": "PPPRR", "gaps": [3, 1], "width": 4},
                 bounds=f"adapter {kind}; 4-element payload; pattern PPPRR; gaps [3,1] us",
                 must_cover=["req:ok"]))
+    if not q:
+        from .. import chsrc
+        fams.append(dict(name="crosshair:select", kind="crosshair", ref="vf.chrun:replay", src=chsrc.SELECT, params={},
+                         bounds="CrossHair on NextTime/PreviousTime._interpolate, 3 publications, gaps <= 10^6 us (independent second encoding; inconclusive results are reported, not counted)",
+                         per_condition_timeout=60, must_cover=["ran"]))
     return fams
